@@ -186,7 +186,7 @@ def alloc_taint(ctx):
 
 # --------------------------------------------------------------------------- READ-ERR-LATCH
 
-@rule('READ-ERR-LATCH', ['C06', 'C05', 'C04'], floor=4)
+@rule('READ-ERR-LATCH', ['C06', 'C05', 'C04'], floor=6)
 def read_err_latch(ctx):
     """A reader that owns LZ decoder state (an LZMADecoder, or a nested LZMAReader), or that swaps its own
     source between a decoder chain and the raw container (a `Box<dyn Read>` field: XZReader), never runs again
@@ -205,7 +205,10 @@ def read_err_latch(ctx):
         if not adt:
             continue
         ftys = [fl['ty'] for v in adt['variants'][:1] for fl in v['fields']]
-        if not any('LZMADecoder' in t or 'LZMAReader<' in t or ('Box<(dyn' in t and 'Read' in t) for t in ftys):
+        # BCJReader / BCJ2Reader: they put converted bytes into the caller's buffer BEFORE they pull more from their source in the
+        # same call; when that pull fails the bytes are lost with the Err, so going on afterwards hands out data with a hole
+        if not (any('LZMADecoder' in t or 'LZMAReader<' in t or ('Box<(dyn' in t and 'Read' in t) for t in ftys)
+                or last_seg(f.self_adt) in ('BCJReader', 'BCJ2Reader')):
             continue
         n += 1
         key = '%s:error-is-sticky' % f.key
@@ -224,11 +227,26 @@ def read_err_latch(ctx):
                 e = sorted(set(g.succs(s)))
                 cond = pg.operand(g.blocks[s]['term']['discr'], 0, '%d:T' % s)
                 names = set()
-                for x in expr_walk(cond):
+
+                def direct_fields(x):
+                    # fields read directly by the condition; calls are only looked through when they are Option/bool accessors
+                    # (a condition like `!self.decoder.decode(&mut self.base, ..)` does not test a latch)
+                    if not isinstance(x, tuple):
+                        return
                     if x[0] == 'field':
                         sf = self_field_of(x)
                         if sf and len(sf) == 1:
                             names.add(sf[0])
+                            return
+                    if x[0] == 'call' and last_seg(x[1]) not in ('is_some', 'is_none', 'as_ref', 'as_mut', 'is_ok', 'is_err', 'not', 'eq', 'ne', 'deref'):
+                        return
+                    for y in x[1:]:
+                        if isinstance(y, tuple):
+                            direct_fields(y)
+                        elif isinstance(y, list):
+                            for z in y:
+                                direct_fields(z)
+                direct_fields(cond)
                 if not names:
                     continue
                 # one edge leads straight to `return Err(..)` without any call to a local function
